@@ -3,7 +3,7 @@
 From Coq Require Import ZArith NArith Bool List.
 From SV.Num Require Import Dec IntParse NumGrammar Range IntPrint RangeProofs IntParseProofs NumGrammarProofs
   SkipNumberProofs IntPrintProofs IntPrintExact FloatCheck FloatSpec FloatCheckProofs FloatCheckSound
-  FloatFmt FloatFmtProofs WriteDecDenotes.
+  FloatFmt FloatFmtProofs WriteDecDenotes VNumber Api Refuted.
 Import ListNotations.
 Open Scope Z_scope.
 
@@ -212,3 +212,15 @@ Example C19_write_dec_examples :
   write_dec_f64 1 (-7) = [49;101;45;55]%N /\                          (* 1e-7 *)
   write_dec_f64 15 (-1) = [49;46;53]%N /\ write_dec_f64 12345 (-12) = [49;46;50;51;52;53;101;45;56]%N.
 Proof. repeat split; reflexivity. Qed.
+
+(* ---- refuted clauses (the pinned code violates the property; witnesses replayed in the correspondence run,
+   recorded as KF-C19-negzero-literal and KF-C19-f32-double-rounding) ---------------------------------------- *)
+Theorem C19_negzero_literal_refuted :
+  exists lit, nearest_bits f64 lit = BBits (2 ^ 63) /\ n_vt (vnumber lit 0%N 0) = V_INTEGER /\ n_dv (vnumber lit 0%N 0) = 0.
+Proof. exact vnumber_negzero_refuted. Qed.
+Print Assumptions C19_negzero_literal_refuted.
+
+Theorem C19_float32_double_rounding_refuted :
+  exists lit, nearest_bits f32 lit = BBits 1065353217 /\ unmarshal_f32 lit = Some 1065353216.
+Proof. exact unmarshal_f32_double_rounding_refuted. Qed.
+Print Assumptions C19_float32_double_rounding_refuted.
